@@ -6,6 +6,7 @@
    (Diff/GenericDiff.v), tied to the code by exact correspondence in C01/C14 and, here, across histories. *)
 From Coq Require Import List Bool.
 From NB Require Import Base.Json Diff.GenericDiff Sys.History Sys.HistoryProofs Gen.HistoryFacts.
+From NB Require Import Sys.Flags.
 Import ListNotations.
 
 (* what the differ sees after ANY history of diffs, merges, ignore settings and resets is what it would
@@ -36,6 +37,32 @@ Theorem targets_leaves_others : forall t s o a m i d p,
   mfind p (targets_mapping s o a m i d) = None -> lookup (set_targets t s o a m i d) p = lookup t p.
 Proof. exact targets_leaves_others_l. Qed.
 Print Assumptions targets_leaves_others.
+
+(* the command-line route to the table (nbdime/args.py process_exclusive_ignorables + process_diff_flags, Sys/Flags.v;
+   run against the real function after every operation of a history): with no flag the table is left as it is; selecting
+   all six parts is set_notebook_diff_targets(True x 6), i.e. the full reset of everything the flags govern, whatever
+   was configured before; positive flags show exactly the parts given, negative flags hide exactly the parts given *)
+Theorem flags_none_leaves_state : forall t, step t (flags_op None None None None None None) = t.
+Proof. exact flags_none. Qed.
+Print Assumptions flags_none_leaves_state.
+
+Theorem flags_all_six_resets : forall t p,
+  mfind p (targets_mapping true true true true true true) <> None ->
+  lookup (step t (flags_op (Some true) (Some true) (Some true) (Some true) (Some true) (Some true))) p
+  = lookup (step [] (OpTargets true true true true true true)) p.
+Proof. intros t p Hp. rewrite flags_all_six. exact (targets_determined_l t true true true true true true p Hp). Qed.
+Print Assumptions flags_all_six_resets.
+
+Theorem flags_subsets : forall s o a m i d,
+  orb s (orb o (orb a (orb m (orb i d)))) = true ->
+  flags_op (if s then Some true else None) (if o then Some true else None) (if a then Some true else None)
+           (if m then Some true else None) (if i then Some true else None) (if d then Some true else None)
+  = OpTargets s o a m i d
+  /\ flags_op (if s then Some false else None) (if o then Some false else None) (if a then Some false else None)
+              (if m then Some false else None) (if i then Some false else None) (if d then Some false else None)
+     = OpTargets (negb s) (negb o) (negb a) (negb m) (negb i) (negb d).
+Proof. intros s o a m i d Hn. split; [exact (flags_positive_subset s o a m i d Hn) | exact (flags_negative_subset s o a m i d Hn)]. Qed.
+Print Assumptions flags_subsets.
 
 (* source facts, regenerated on every run: predicate lookups store nothing; the key filters are reset first *)
 Theorem source_facts : predicate_lookup_inserts = false /\ targets_reset_key_filters = true.
